@@ -11,7 +11,7 @@ Mirrors (with the C10 repairs applied, see `Quirks`):
 * bgzf/reader.go `expectedMemberSize`, `decompressor.readMember`, `buffer.readLimited` (io.ReadFull),
   `nextBlockAt`, `Reader.Read`/`nextBlock` flattened to "all data, then the terminal error";
 * bgzf/cache.go `readToEOF` / `block.readFrom` (data of a member is installed only if the gzip reader
-  reached its verified end; more than MaxBlockSize bytes is io.ErrShortBuffer);
+  reached its verified end; the one-byte probe after MaxBlockSize bytes; more is io.ErrShortBuffer);
 * bgzf/bgzf.go `HasEOF`;
 * sam/parse_header.go `DecodeBinary` framing and bam/reader.go `newBuffer` (length-prefix framing).
 
@@ -41,7 +41,8 @@ deriving DecidableEq, Repr
 deflate stream occupies, or a failure. -/
 inductive InflateResult where
   | ok (payload : Bytes) (used : Nat)
-  | fail (code : Nat)
+  /-- failure, after `produced` bytes of output had been delivered -/
+  | fail (code : Nat) (produced : Nat)
 deriving DecidableEq, Repr
 
 /-- compress/flate and hash/crc32, as parameters.  No law is needed for the C10 theorems: they are
@@ -60,10 +61,14 @@ structure Quirks where
   /-- bam newBuffer: io.ReadFull of the record body with no byte available returns io.EOF;
       repaired: io.ErrUnexpectedEOF. -/
   bamEofOnEmptyBody : Bool
+  /-- cache.go readToEOF: the count of the one-byte probe read after MaxBlockSize bytes is ignored, so a
+      byte delivered together with io.EOF is dropped (audit H-1); repaired: any probed byte is
+      io.ErrShortBuffer. -/
+  dummyReadCountIgnored : Bool
 deriving DecidableEq, Repr
 
-def Quirks.repaired : Quirks := ⟨false, false, false⟩
-def Quirks.unrepaired : Quirks := ⟨true, true, true⟩
+def Quirks.repaired : Quirks := ⟨false, false, false, false⟩
+def Quirks.unrepaired : Quirks := ⟨true, true, true, true⟩
 
 def BlockSize : Nat := 0xff00
 def MaxBlockSize : Nat := 0x10000
@@ -202,41 +207,62 @@ def readMember (q : Quirks) (c : Codec) (s : Bytes) : Except Err Framed :=
 
 /-! ### gzip member body: inflate, trailer check, multistream continuation inside the buffer -/
 
-/-- The gzip reader (after its header) over the buffered `need` bytes, read to its end
-(`readToEOF`): success only after the 8-byte trailer matched CRC-32 and ISIZE of what was inflated.
+/-- The gzip reader (after its header) over the buffered `need` bytes, read to its end: success only
+after the 8-byte trailer matched CRC-32 and ISIZE of what was inflated.
 compress/gzip is in multistream mode after `Reset`: after a verified trailer it looks for a further
-member *inside the buffer*; an empty remainder is the clean end. -/
-def gzBody (c : Codec) (buf : Bytes) : Except Err Bytes :=
+member *inside the buffer*; an empty remainder is the clean end.
+
+Result: `ok (data, lastNonEmpty)` — all bytes delivered, then io.EOF; `lastNonEmpty` says that the last
+gzip member holds at least one byte (then the final byte and io.EOF arrive in the same `Read`);
+`error (e, produced)` — `produced` bytes are delivered without error, then `e` (compress/flate delivers
+everything it decoded before it reports an error; a trailer mismatch is seen after the whole payload). -/
+def gzBody (c : Codec) (buf : Bytes) : Except (Err × Nat) (Bytes × Bool) :=
   match c.inflate buf with
-  | .fail code => .error (.inflate code)
+  | .fail code produced => .error (.inflate code, produced)
   | .ok payload used =>
-    if _h8 : (buf.drop used).length < 8 then .error .unexpectedEOF
+    if _h8 : (buf.drop used).length < 8 then .error (.unexpectedEOF, payload.length)
     else if leNat ((buf.drop used).take 4) ≠ c.crc32 payload
         ∨ leNat (((buf.drop used).drop 4).take 4) ≠ payload.length % 4294967296 then
-      .error .gzChecksum
+      .error (.gzChecksum, payload.length)
     else
       match readHeader c.crc32 ((buf.drop used).drop 8) with
-      | .error .eof => .ok payload
-      | .error e => .error e
+      | .error .eof => .ok (payload, !payload.isEmpty)
+      | .error e => .error (e, payload.length)
       | .ok (_, hl) =>
         match gzBody c (((buf.drop used).drop 8).drop hl) with
-        | .error e => .error e
-        | .ok p2 => .ok (payload ++ p2)
+        | .error (e, n) => .error (e, payload.length + n)
+        | .ok (p2, ne) => .ok (payload ++ p2, ne)
 termination_by buf.length
 decreasing_by
   simp only [List.length_drop] at _h8 ⊢
   omega
 
-/-- One block: frame the member, run the gzip reader over it, enforce the block capacity. -/
+/-- cache.go `readToEOF` + `block.readFrom` over what the gzip reader delivers: up to `MaxBlockSize`
+bytes are read into the block; if the reader has not ended by then, ONE more byte is probed:
+nothing more and io.EOF → the block is complete; a byte → `io.ErrShortBuffer` (repaired).
+The unchanged tree ignored the count of the probe and looked at its error only, so a 65537th byte
+arriving together with io.EOF was dropped and the block accepted with 65536 bytes; and an error
+arriving with that byte was returned in place of ErrShortBuffer (for the unrepaired variant the model
+assumes the error does arrive with it; this affects the error kind only). -/
+def readToEOF (q : Quirks) : Except (Err × Nat) (Bytes × Bool) → Except Err Bytes
+  | .ok (data, lastNonEmpty) =>
+    if data.length ≤ MaxBlockSize then .ok data
+    else if q.dummyReadCountIgnored ∧ data.length = MaxBlockSize + 1 ∧ lastNonEmpty then
+      .ok (data.take MaxBlockSize)
+    else .error .shortBuffer
+  | .error (e, produced) =>
+    if produced ≤ MaxBlockSize then .error e
+    else if q.dummyReadCountIgnored ∧ produced = MaxBlockSize + 1 then .error e
+    else .error .shortBuffer
+
+/-- One block: frame the member, run the gzip reader over it into the block buffer. -/
 def readBlock (q : Quirks) (c : Codec) (s : Bytes) : Except Err (Bytes × Bytes) :=
   match readMember q c s with
   | .error e => .error e
   | .ok f =>
-    match gzBody c f.body with
+    match readToEOF q (gzBody c f.body) with
     | .error e => .error e
-    | .ok payload =>
-      if payload.length > MaxBlockSize then .error .shortBuffer
-      else .ok (payload, f.rest)
+    | .ok payload => .ok (payload, f.rest)
 
 /-- The whole stream as seen through `NewReader` + `Read`…: all bytes delivered, then the terminal
 (sticky) error; `eof` is the clean end.  Data of a member is delivered only if `readBlock` succeeded. -/
